@@ -157,7 +157,7 @@ def check_errors(ctx, req, resp, ref, case, prop_name="errors"):
             problems.append(("error-for-no-failure", "path %s not among failing paths %s" % (p, sorted(map(list, possible), key=str)[:8])))
             continue
         # location inside one of the merged field nodes at that path
-        nodes = ref.nodes_at.get(tuple(x for x in p if isinstance(x, str)))
+        nodes = ref.nodes_for(p)
         locs = e.get("locations")
         if not isinstance(locs, list) or not locs:
             problems.append(("error-without-location", jdump(e)[:300]))
